@@ -62,6 +62,12 @@ pub fn contexts(level: u8) -> Vec<(Vec<u8>, Vec<u8>)> {
 			out.push((domains::b(p), domains::b(s)));
 		}
 	}
+	// tails of exactly two bytes (as long as the shortest splice the editor makes)
+	for p in ["//h", "s://h", "s:"] {
+		for s in ["?q", "#f"] {
+			out.push((domains::b(p), domains::b(s)));
+		}
+	}
 	out
 }
 
